@@ -29,7 +29,7 @@ CHECKS = {
    note="Trusted: reftz.rs instant direction (C03). Civil times displayed by >= 3 instants are skipped and counted.",
    design="DESIGN.md section 3 C04"),
  "C05": dict(
-   technique="differential proptest over an API table: ~175 public fallible operations called with limit-biased generated arguments in two builds of the same harness (debug assertions + overflow checks on, and release) connected by a pipe; oracle = no panic in either build, range predicates and print/parse canaries on every Ok value (evaluated inside the panic guard), and identical answers in both builds; proptest shrinking works across both builds",
+   technique="differential proptest over an API table: ~180 public fallible operations called with limit-biased generated arguments in two builds of the same harness (debug assertions + overflow checks on, and release) connected by a pipe; oracle = no panic in either build, range predicates and print/parse canaries on every Ok value (evaluated inside the panic guard), and identical answers in both builds; proptest shrinking works across both builds",
    category="exploration",
    text="Rows cover constructors, checked/saturating arithmetic with Span/SignedDuration/Duration, until/since with every option, round, with-builders, series, civil->instant conversion with every disambiguation and offset-conflict strategy, Span checked_add/sub/mul/round/total/compare/to_duration with every kind of relative datetime, duration and offset conversions. Arguments: dates/times/timestamps at and next to their limits, instants at zone transitions of 30 zones (incl. +-25:59:59, right/, POSIX, synthetic), spans with units at their limits, increments {divisors, 0, -1, i64::MIN/MAX, non-divisors}, integers at the limits of i8/i16/i32/i64/i128, special floats.",
    note="'With debug assertions' is the dbg profile (optimised, debug-assertions and overflow-checks on); 'without' is the rel profile. Which of Ok/Err is right is left to C06..C12. Option-returning and documented-panicking APIs are not rows.",
